@@ -2,6 +2,7 @@
    Input lines:  V <key hex> <msg hex> <sig hex> <0|1>   verification oracle entry
                  P <seed hex> <pub hex>                  public-key oracle entry
                  S <seed hex> <msg hex> <sig hex>        signing oracle entry
+                 H <msg hex> <digest hex>                SHA-256 table entry (Gallina Sha256 is used in the kernel path)
                  C <id> <wire case>                      run a case
    Output lines: R <id> <wire outcome>
                  M <id> V|P|S <hex args...>              oracle miss while running case <id>
@@ -30,6 +31,7 @@ let string_of_hex h =
 let vtab : (Stdlib.String.t * Stdlib.String.t * Stdlib.String.t, bool) Hashtbl.t = Hashtbl.create 1024
 let ptab : (Stdlib.String.t, Stdlib.String.t) Hashtbl.t = Hashtbl.create 64
 let stab : (Stdlib.String.t * Stdlib.String.t, Stdlib.String.t) Hashtbl.t = Hashtbl.create 1024
+let htab : (Stdlib.String.t, Stdlib.String.t) Hashtbl.t = Hashtbl.create 1024
 let cur = ref ""
 let missed : (Stdlib.String.t, unit) Hashtbl.t = Hashtbl.create 16
 let miss s = if not (Hashtbl.mem missed s) then (Hashtbl.add missed s (); print_string ("M " ^ !cur ^ " " ^ s ^ "\n"))
@@ -50,6 +52,12 @@ let ed_sign seed m =
   | Some s -> explode s
   | None -> miss ("S " ^ hex_of_string sd ^ " " ^ hex_of_string m); explode (String.make 64 '\000')
 
+let sha m =
+  let m = implode m in
+  match Hashtbl.find_opt htab m with
+  | Some d -> explode d
+  | None -> miss ("H " ^ hex_of_string m); explode (String.make 32 '\000')
+
 let () =
   try
     while true do
@@ -57,13 +65,14 @@ let () =
       match String.split_on_char ' ' line with
       | [ "V"; k; m; s; b ] -> Hashtbl.replace vtab (string_of_hex k, string_of_hex m, string_of_hex s) (b = "1")
       | [ "P"; sd; p ] -> Hashtbl.replace ptab (string_of_hex sd) (string_of_hex p)
+      | [ "H"; m; d ] -> Hashtbl.replace htab (string_of_hex m) (string_of_hex d)
       | [ "S"; sd; m; s ] -> Hashtbl.replace stab (string_of_hex sd, string_of_hex m) (string_of_hex s)
       | "C" :: id :: _ ->
           cur := id;
           Hashtbl.reset missed;
           let off = 3 + String.length id in
           let w = String.sub line off (String.length line - off) in
-          let out = run_case ed_verify ed_pub ed_sign (explode w) in
+          let out = run_case ed_verify ed_pub ed_sign sha (explode w) in
           print_string ("R " ^ id ^ " " ^ implode out ^ "\n"); flush stdout
       | _ -> print_string "? bad line\n"
     done
